@@ -167,7 +167,7 @@ func (s *Solver) declare(t *Term, sorts map[string]Sort) {
 // sync makes the solver's assertion stack equal to pc.
 func (s *Solver) sync(pc []*Term, sorts map[string]Sort) {
 	n := 0
-	for n < len(pc) && n < len(s.stack) && s.stack[n] == pc[n] {
+	for n < len(pc) && n < len(s.stack) && (s.stack[n] == pc[n] || s.stack[n].s == pc[n].s) {
 		n++
 	}
 	if n < len(s.stack) {
